@@ -537,9 +537,10 @@ NOISE_TOL = {"sv": 1e-7, "mps": 1e-6}    # bad-atom run vs sub-register run, sam
 NOJUMP_TOL = {"sv": 1e-5, "mps": 2e-3}   # vs dense normalised H_eff evolution (mps: TDVP error, as OCC_TOL)
 
 
-def noise_spec(mode, backend, n, bad, seed, rseed, relaxation, dephasing, perm=None, steps=8, dt=20.0):
+def noise_spec(mode, backend, n, bad, seed, rseed, relaxation, dephasing, perm=None, steps=8, dt=20.0, depolarizing=0.0):
     return {"kind": "noise", "mode": mode, "backend": backend, "n": n, "bad": [bool(x) for x in bad], "seed": int(seed),
-            "rseed": int(rseed), "relaxation": float(relaxation), "dephasing": float(dephasing), "perm": perm,
+            "rseed": int(rseed), "relaxation": float(relaxation), "dephasing": float(dephasing),
+            "depolarizing": float(depolarizing), "perm": perm,
             "steps": steps, "dt": dt, "scale": 2.5}
 
 
@@ -555,6 +556,10 @@ def lindblad_ops(spec):
         L = torch.zeros(2, 2, dtype=torch.complex128)
         L[0, 0], L[1, 1] = (spec["dephasing"] / 2) ** 0.5, -(spec["dephasing"] / 2) ** 0.5
         ops.append(L)
+    if spec.get("depolarizing", 0.0) > 0:               # sqrt(rate/4) * (sigma_x, sigma_y, sigma_z): excites g, local
+        c = (spec["depolarizing"] / 4) ** 0.5
+        for m in ([[0, 1], [1, 0]], [[0, -1j], [1j, 0]], [[1, 0], [0, -1]]):
+            ops.append(c * torch.tensor(m, dtype=torch.complex128))
     return ops
 
 
@@ -646,12 +651,20 @@ def noise_run(spec):
     except Exception as ex:  # noqa: BLE001
         return {"outcome": "raises", "exception": type(ex).__name__, "message": str(ex)[:160]}
     worst, scale = 0.0, 0.0
-    for t in et:
+    only_good = spec.get("depolarizing", 0.0) > 0    # a channel that excites g acts on the bad atoms of emu-sv's density
+    for t in et:                                      # matrix too (local): only the good atoms are compared then
         occ = np.zeros(n)
         occ[good] = small[f"occ@{t}"]
         corr = np.zeros((n, n))
         corr[np.ix_(good, good)] = small[f"corr@{t}"]
-        worst = max(worst, float(np.abs(full[f"occ@{t}"] - occ).max()), float(np.abs(full[f"corr@{t}"] - corr).max()),
+        focc, fcorr = full[f"occ@{t}"].copy(), full[f"corr@{t}"].copy()
+        if only_good:
+            keep = np.zeros(n, dtype=bool)
+            keep[good] = True
+            focc[~keep] = 0.0
+            fcorr[~keep, :] = 0.0
+            fcorr[:, ~keep] = 0.0
+        worst = max(worst, float(np.abs(focc - occ).max()), float(np.abs(fcorr - corr).max()),
                     abs(full[f"energy@{t}"] - small[f"energy@{t}"]) / 10.0)
         scale = max(scale, float(occ.max()))
     r = {"outcome": "ok", "worst_vs_subregister": worst, "max_occupation": scale, "atom_order": full["atom_order"],
@@ -670,6 +683,7 @@ def noise_run(spec):
 def noise_judge(ctx, spec, r):
     be = spec["backend"]
     ctx.count_case({k: spec[k] for k in ("kind", "mode", "backend", "n", "bad", "perm", "seed", "rseed", "relaxation", "dephasing")}
+                   | {"depolarizing": spec.get("depolarizing", 0.0)}
                    | {"outcome": r["outcome"]}, nontrivial=any(spec["bad"]))
     if r["outcome"] == "raises":
         ctx.violation(f"emu-{be} raises with bad atoms and Lindblad noise: {r['exception']}: {r['message']}",
@@ -711,6 +725,12 @@ def noise_specs(ctx):
             specs.append(noise_spec("same-seed", "mps", n, bad, seed, rseed, relax, deph, perm=perm))
         if n <= 4:
             specs.append(noise_spec("same-seed", "sv", n, bad, seed, 0, relax, deph))
+            # a channel that can excite the bad atom: its couplings must really be switched off (rows AND columns);
+            # make sure a bad atom sits after a good one it is coupled to
+            bad2 = list(bad)
+            if not any(bad2[j] and not bad2[i] for i in range(n) for j in range(i + 1, n)):
+                bad2 = [False] * (n - 1) + [True]
+            specs.append(noise_spec("same-seed", "sv", n, bad2, seed, 0, 0.0, 0.0, depolarizing=rng.choice([2.0, 4.0])))
     return specs
 
 
